@@ -900,21 +900,38 @@ pub fn parse_query(iter: &mut Iter<'_>) -> Query {
             };
             let right = match iter.peek().cloned().unwrap() {
                 Token::Eof => Conversion::None,
-                Token::Degree(deg) => Conversion::Degree(deg),
+                Token::Degree(deg) => {
+                    iter.next();
+                    Conversion::Degree(deg)
+                }
                 Token::Plus | Token::Minus => {
-                    let mut old = iter.clone();
+                    let old = iter.clone();
                     if let Some(off) = parse_offset(iter) {
                         Conversion::Offset(off)
                     } else {
-                        Conversion::Expr(parse_eq(&mut old))
+                        *iter = old;
+                        Conversion::Expr(parse_eq(iter))
                     }
                 }
-                Token::Ident(ref s) if is_valid_timezone(s) => Conversion::Timezone(
-                    Tz::from_str(s).expect("Running from_str a second time failed"),
-                ),
+                Token::Ident(ref s) if is_valid_timezone(s) => {
+                    iter.next();
+                    Conversion::Timezone(
+                        Tz::from_str(s).expect("Running from_str a second time failed"),
+                    )
+                }
                 _ => Conversion::Expr(parse_eq(iter)),
             };
-            Query::Convert(left, right, base, digits)
+            // Nothing may follow the target, or the answer would be
+            // for a different question than the one that was asked.
+            match iter.peek().cloned().unwrap() {
+                Token::Eof | Token::Newline | Token::Comment(_) => {
+                    Query::Convert(left, right, base, digits)
+                }
+                token => Query::Error(format!(
+                    "Expected end of input after the conversion target, got {}",
+                    describe(&token)
+                )),
+            }
         }
         _ => Query::Expr(left),
     }
